@@ -95,17 +95,17 @@ def _real_fs(ask, top, sub, subsub, fi, ci, recursive, index, noise):
         and info.path == 'file://' + os.path.join(hits[0], fname)
 
 
-def real_zip(ask: int, depth: int, fi: int, ci: int, indir: bool, dup: bool, present: bool) -> bool:
+def real_zip(ask: int, depth: int, fi: int, ci: int, indir: bool, dup: bool, present: bool, twice: bool) -> bool:
     """
     requires: 0 <= ask < 4 and 0 <= depth <= 3 and 0 <= fi <= 6 and 0 <= ci < 5
     """
     ask, depth, fi, ci = pick([0, 1, 2, 3], ask), pick([0, 1, 2, 3], depth), pick(list(range(7)), fi), pick(list(range(5)), ci)
-    indir, dup, present = bool(indir), bool(dup), bool(present)
+    indir, dup, present, twice = bool(indir), bool(dup), bool(present), bool(twice)
     with tok._untraced():
-        return _real_zip(ask, depth, fi, ci, indir, dup, present)
+        return _real_zip(ask, depth, fi, ci, indir, dup, present, twice)
 
 
-def _real_zip(ask, depth, fi, ci, indir, dup, present):
+def _real_zip(ask, depth, fi, ci, indir, dup, present, twice=False):
     import importlib
     from pysmi.reader import zipreader
     importlib.reload(zipreader)
@@ -116,9 +116,18 @@ def _real_zip(ask, depth, fi, ci, indir, dup, present):
     content = CONTENTS[ci]
     dt = (2020, 1, 2, 3, 4, 6)
     buf = io.BytesIO()
+    dt_old = (2010, 5, 6, 7, 8, 10)
     with zipfile.ZipFile(buf, 'w') as z:
         if present:
-            z.writestr(zipfile.ZipInfo((('mibs/' + fname) if indir else fname), dt), content)
+            if twice:
+                # the SAME member name twice (what appending a newer file to an archive produces): an older entry first
+                import warnings
+                with warnings.catch_warnings():
+                    warnings.simplefilter('ignore')
+                    z.writestr(zipfile.ZipInfo((('mibs/' + fname) if indir else fname), dt_old), b'OLDER-ENTRY')
+                    z.writestr(zipfile.ZipInfo((('mibs/' + fname) if indir else fname), dt), content)
+            else:
+                z.writestr(zipfile.ZipInfo((('mibs/' + fname) if indir else fname), dt), content)
         z.writestr(zipfile.ZipInfo('mibs/UNRELATED.txt', dt), b'other')
         if dup:
             z.writestr(zipfile.ZipInfo('other/UNRELATED.txt', dt), b'other2')
@@ -147,6 +156,9 @@ def _real_zip(ask, depth, fi, ci, indir, dup, present):
     if got != 'ok':
         return False
     want_mtime = time.mktime(datetime.datetime(*dt).timetuple())
+    if twice and text == 'OLDER-ENTRY':
+        # content and modification time must belong to ONE member
+        return info.mtime == time.mktime(datetime.datetime(*dt_old).timetuple()) and info.file == fname
     return text == content.decode('utf-8', 'ignore') and info.mtime == want_mtime and info.file == fname
 
 
@@ -164,11 +176,11 @@ def conditions(prop, tier):
                                'name variant, .index mapping present/valid/dangling, recursive or not, unrelated files' % NAMES[ask]))
         out.append(dict(name='C14.exec.ZipReader.n%d' % ask, fn='real_zip', fixed=dict(ask=ask), timeout=t,
                         extra_pre=['fi <= 3 and ci <= 2'] if q else [],
-                        bounds=X + 'module name %r in a real ZIP nested 0-3 archives deep, at the top or in a directory, duplicate basenames, '
+                        bounds=X + 'module name %r in a real ZIP nested 0-3 archives deep, at the top or in a directory, duplicate basenames, the same member name stored twice (older entry first), '
                                'absent or present, every name variant' % NAMES[ask]))
     return out
 
 
 def selftests(prop):
     return [('real_fs', dict(ask=0, top=0, sub=1, subsub=1, fi=2, ci=1, recursive=True, index=0, noise=True)),
-            ('real_zip', dict(ask=1, depth=2, fi=0, ci=2, indir=True, dup=True, present=True))]
+            ('real_zip', dict(ask=1, depth=2, fi=0, ci=2, indir=True, dup=True, present=True, twice=True))]
